@@ -93,34 +93,46 @@ def rmtree(path):
         shutil.rmtree(path, ignore_errors=True)
 
 
+def modfile():
+    """A private go.mod/go.sum pair for this process whose replace directive
+    points at the tree under test, so that concurrent checks against different
+    trees (VERIF_REPO) never touch harness/go.mod."""
+    d = os.path.join(WORK, "modfiles", "%s-%d" % (hashlib.sha256(REPO.encode()).hexdigest()[:10], os.getpid()))
+    os.makedirs(d, exist_ok=True)
+    gm = os.path.join(d, "go.mod")
+    s = open(os.path.join(HARNESS, "go.mod")).read()
+    s = re.sub(r"replace filippo.io/sunlight => .*\n", "replace filippo.io/sunlight => %s\n" % REPO, s)
+    open(gm, "w").write(s)
+    shutil.copy(os.path.join(REPO, "go.sum"), os.path.join(d, "go.sum"))
+    return gm
+
+
 def prepare_harness_module():
-    """go.mod of the harness points at the tree under test."""
-    gm = os.path.join(HARNESS, "go.mod")
-    want = "replace filippo.io/sunlight => %s\n" % REPO
-    s = open(gm).read()
-    s2 = re.sub(r"replace filippo.io/sunlight => .*\n", want, s)
-    if s2 != s:
-        open(gm, "w").write(s2)
-    src = os.path.join(REPO, "go.sum")
-    dst = os.path.join(HARNESS, "go.sum")
-    if not os.path.exists(dst) or open(src).read() != open(dst).read():
-        shutil.copy(src, dst)
+    return modfile()
 
 
 def build_test_binary(pkg, out, tags="verif", timeout=900):
     """Builds the test binary of a harness package against REPO's working tree."""
-    prepare_harness_module()
+    gm = modfile()
     os.makedirs(os.path.dirname(out), exist_ok=True)
-    p = sh(["go", "test", "-c", "-tags", tags, "-o", out, pkg], cwd=HARNESS, env=GOENV, timeout=timeout)
+    p = sh(["go", "test", "-modfile", gm, "-c", "-tags", tags, "-o", out, pkg], cwd=HARNESS, env=GOENV, timeout=timeout)
+    shutil.rmtree(os.path.dirname(gm), ignore_errors=True)
     if p.returncode != 0:
         raise Inconclusive("harness build failed:\n" + p.stdout[-6000:])
     return out
 
 
 def build_binary(pkg, out, cwd=None, tags="verif", timeout=900):
-    prepare_harness_module()
+    """Builds a main package: of the harness module (cwd None) or of the tree
+    under test (cwd=REPO, e.g. ./cmd/skylight)."""
     os.makedirs(os.path.dirname(out), exist_ok=True)
-    p = sh(["go", "build", "-tags", tags, "-o", out, pkg], cwd=cwd or HARNESS, env=GOENV, timeout=timeout)
+    if cwd is None or os.path.abspath(cwd).startswith(HARNESS):
+        gm = modfile()
+        cmd = ["go", "build", "-modfile", gm, "-tags", tags, "-o", out, pkg]
+        p = sh(cmd, cwd=cwd or HARNESS, env=GOENV, timeout=timeout)
+        shutil.rmtree(os.path.dirname(gm), ignore_errors=True)
+    else:
+        p = sh(["go", "build", "-tags", tags, "-o", out, pkg], cwd=cwd, env=GOENV, timeout=timeout)
     if p.returncode != 0:
         raise Inconclusive("build failed:\n" + p.stdout[-6000:])
     return out
